@@ -139,6 +139,7 @@ def payload_writers(ctx, cfg, fs, rule):
             raise Broken('no writer of Doc.%s found' % fld)
         for fn, where in sorted(seen[fld].items()):
             ctx.ob(rule, 'doc-writers:%s<-%s' % (fld, fn.split('::')[-1]), fs.listed(fn, table), '%s writes Doc.%s: %s' % (fn.split('::')[-1], fld, table.get(fn, 'NOT a listed writer (text and token lengths are kept in step by write_str / write only)')), where=where, cfg=cfg)
+    spliced_in_step(ctx, cfg, fs, rule)
     # write_str: the length recorded is the byte length of the very string appended
     b = ctx.look(fs.one(r'^buffer::Doc::write_str$'))
     ps = [c for c in b.calls() if c.is_(r'String::push_str$')]
@@ -201,3 +202,32 @@ def style_reset_first(ctx, cfg, fs, rule, fn_rx, style_fn_rx):
                    '%s, %s arm: the style reset precedes every write of the arm (%d reset(s), %d write(s)): %s' % (b.path.split('::')[-1], arm, len(resets), len(writes), late[:3] or 'ok'), where=b.where(t), cfg=cfg)
     if n == 0:
         raise Broken('style_reset_first: no token loop matches %s' % fn_rx)
+
+
+def spliced_in_step(ctx, cfg, fs, rule):
+    """Doc::doc / Doc::em_doc splice another Doc in: wherever they copy TOKENS of the other Doc they copy the PAYLOAD those tokens
+    describe on the same path (a Text token promises `bytes` bytes of payload; tokens without their bytes make every renderer slice
+    past the end of the text)"""
+    for path in ('buffer::Doc::doc', 'buffer::Doc::em_doc'):
+        b = ctx.look(fs.body(path))
+        tok = []; pay = []
+        for c in b.calls():
+            if not c.args or len(c.args) < 2:
+                continue
+            dst = provenance(b, c.args[0], c.bb, 'term')
+            src = provenance(b, c.args[-1], c.bb, 'term', through=DEFAULT_THROUGH + [r'Index<.*>>::index$', r'slice::<impl \[T\]>::(iter|get)$', r'str::<impl str>::get$'])
+            to_self = lambda f: bool(dst) and all(r.kind == 'param' and r.what == 'self' and r.path[:1] == [f] for r in dst)
+            from_buf = lambda f: bool(src) and all(r.kind == 'param' and r.what != 'self' and r.path[:1] == [f] for r in src)
+            if c.is_(r'(extend|extend_from_slice|append)\b', r'Extend<') and to_self('tokens') and from_buf('tokens'):
+                tok.append(c)
+            if c.is_(r'String::push_str$', r'String::extend', r'String::insert_str$') and to_self('payload') and from_buf('payload'):
+                pay.append(c)
+        rets = b.return_blocks()
+        lonely = []
+        for t in tok:
+            # some payload copy lies on every path through this token copy: it dominates it, or every way on from it passes one
+            ok = any(b.dominates(p_.bb, t.bb) for p_ in pay) or not any(r in reachable_edges(b, t.target if t.target is not None else t.bb, avoid=[p_.bb for p_ in pay]) for r in rets)
+            if not ok:
+                lonely.append(b.where(t.bb))
+        ctx.ob(rule, 'doc-writers:%s:tokens-with-their-payload' % path.split('::')[-1], bool(tok) and not lonely,
+               '%s copies tokens of the spliced Doc at %d site(s) and its payload at %d; every token copy has a payload copy on all its paths: %s' % (path.split('::')[-1], len(tok), len(pay), lonely or 'ok'), where=b.where(), cfg=cfg)
